@@ -6,6 +6,7 @@ import (
 	"os"
 
 	"github.com/zeromicro/go-zero/tools/goctl/pkg/parser/api/parser"
+	"github.com/zeromicro/go-zero/tools/goctl/pkg/parser/api/scanner"
 )
 
 // File formats the api file.
@@ -23,6 +24,11 @@ func File(filename string) error {
 
 // Source formats the api source.
 func Source(source []byte, w io.Writer) error {
+	// parser.New terminates the process (log.Fatalln) when the scanner cannot be created, e.g. for an empty source
+	if _, err := scanner.NewScanner("", source); err != nil {
+		return err
+	}
+
 	p := parser.New("", source)
 	result := p.Parse()
 	if err := p.CheckErrors(); err != nil {
